@@ -110,3 +110,103 @@ func ZZFollowerCursor(rf, n, k int) {
 	_ = cur.Close()
 	vReach("end")
 }
+
+// ---- a follower connection that drops: the first stream swallows `lose` appends (they never reach the follower,
+// nothing is acknowledged) and then breaks; the next stream is healthy. The follower holds exactly what it has
+// acknowledged, so on every NEW stream the first entry must be the one right after its acknowledged offset.
+
+type zzFlakyRpc struct {
+	w       *zzWal
+	q       QuorumAckTracker
+	lose    int
+	acked   int64 // what the follower durably holds = what it acknowledged
+	streams []*zzFlakyStream
+	caught  chan bool
+	final   int64
+}
+
+type zzFlakyStream struct {
+	grpc.ClientStream
+	ctx    context.Context
+	r      *zzFlakyRpc
+	lossy  bool
+	seen   int
+	next   int64
+	acks   chan int64
+	broken chan struct{}
+}
+
+func (s *zzFlakyStream) CloseSend() error { return nil }
+func (s *zzFlakyStream) Send(a *proto.Append) error {
+	vAssert("entries-on-a-stream-in-order-without-gaps-from-the-acknowledged-offset", a.Entry.Offset == s.next)
+	s.next = a.Entry.Offset + 1
+	if s.lossy {
+		// lost in flight: the follower never sees it
+		s.seen++
+		if s.seen == s.r.lose {
+			close(s.broken)
+		}
+		return nil
+	}
+	vAssert("sent-entry-is-the-leaders-entry", a.Entry.Offset >= s.r.w.first && a.Entry.Offset <= s.r.w.lastAppended && s.r.w.at(a.Entry.Offset).term == a.Entry.Term)
+	s.r.acked = a.Entry.Offset
+	s.acks <- a.Entry.Offset
+	if a.Entry.Offset == s.r.final {
+		s.r.caught <- true
+	}
+	return nil
+}
+func (s *zzFlakyStream) Recv() (*proto.Ack, error) {
+	select {
+	case o := <-s.acks:
+		return &proto.Ack{Offset: o}, nil
+	case <-s.broken:
+		return nil, status.Error(codes.Unavailable, "zz: connection lost")
+	case <-s.ctx.Done():
+		return nil, status.Error(codes.Canceled, "zz: stream closed")
+	}
+}
+
+func (r *zzFlakyRpc) GetReplicateStream(ctx context.Context, _ string, _ string, _ int64, _ int64) (proto.OxiaLogReplication_ReplicateClient, error) {
+	st := &zzFlakyStream{ctx: ctx, r: r, lossy: len(r.streams) == 0 && r.lose > 0, next: r.acked + 1, acks: make(chan int64, 8), broken: make(chan struct{})}
+	r.streams = append(r.streams, st)
+	return st, nil
+}
+func (r *zzFlakyRpc) SendSnapshot(context.Context, string, string, int64, int64) (proto.OxiaLogReplication_SendSnapshotClient, error) {
+	return nil, errors.New("zz: no snapshot in this harness")
+}
+
+// ZZCursorReconnect (C03, C01): the REAL follower cursor across a connection loss within one term: the leader's
+// log holds n entries, the follower has acknowledged a0 of them; the first stream loses `lose` appends in flight and
+// breaks; the cursor re-attaches (backoff) and the leader appends one more entry. What the leader pushed but the
+// follower never acknowledged must be pushed AGAIN: every new stream starts right after the follower's acknowledged
+// offset, so that the offsets the quorum tracker counts for this follower are offsets it really stores.
+func ZZCursorReconnect(n, lose int) {
+	T := int64(3)
+	w := zzNewWal("l")
+	for i := 0; i < n; i++ {
+		_ = w.AppendAsync(zzPutEntry(i, 2, byte(i)))
+	}
+	w.lastSynced = w.lastAppended
+	head := int64(n - 1)
+	q := NewQuorumAckTracker(3, head, -1)
+	a0 := int64(vChoice("followerAck", n)) - 1 // -1 is not used here: the follower holds 0..a0, a0 >= 0
+	vAssume(a0 >= 0)
+	vAssume(int64(lose) <= head-a0) // there are that many entries to lose
+	rpc := &zzFlakyRpc{w: w, q: q, lose: lose, acked: a0, caught: make(chan bool, 1), final: int64(n)}
+	cur, err := NewFollowerCursor("f1", T, "zz", 1, rpc, q, w, nil, a0)
+	vAssert("cursor-created", err == nil)
+	// the leader appends one more entry while all this happens
+	_ = w.AppendAsync(zzPutEntry(n, T, byte(n)))
+	w.lastSynced = w.lastAppended
+	q.AdvanceHeadOffset(int64(n))
+	<-rpc.caught
+	vSettle(20)
+	vAssert("follower-holds-everything-up-to-the-head", rpc.acked == int64(n))
+	if lose > 0 {
+		vAssert("cursor-re-attached", len(rpc.streams) >= 2)
+	}
+	vAssert("quorum-commit-is-backed-by-the-follower", q.CommitOffset() <= rpc.acked)
+	_ = cur.Close()
+	vReach("end")
+}
